@@ -40,6 +40,9 @@ func (w *World) globalFuncAlias(pkgPath, name string) *ssa.Function {
 					if !ok {
 						return nil
 					}
+					if sig, ok := fn.Type().(*types.Signature); !ok || sig.Recv() != nil {
+						return nil // a method value (e.g. regexp.MustCompile(..).MatchString) is not a plain alias
+					}
 					return w.Prog.FuncValue(fn)
 				}
 			}
